@@ -143,6 +143,8 @@ func genCLICases(w *caseWriter, bin string, rng *rand.Rand, st *pkgStats, tier s
 			{"outdir.d", "dir"}, {"out/v1.2.3", "dir"}, {".packages", "dir"},
 			// a directory reached through a symbolic link is a directory
 			{"linked-outdir", "dirlink"},
+			// the flag given with an empty value (a variable that is not set): the same as leaving it out
+			{"", "explicit-empty"},
 		}
 		for _, tc := range targets {
 			for _, flag := range []string{format, ""} {
@@ -177,6 +179,8 @@ func genCLICases(w *caseWriter, bin string, rng *rand.Rand, st *pkgStats, tier s
 				}
 				if tc.target != "" {
 					args = append(args, "-t", tc.target)
+				} else if tc.kind == "explicit-empty" {
+					args = append(args, "-t", "")
 				}
 				cmd := exec.Command(bin, args...)
 				cmd.Dir = run
